@@ -94,16 +94,22 @@ func (s *slot) OnCompleted(ctx *base.EntryContext) {
 }
 
 type expect struct {
-	entryLog  []string
-	exitLog   []string
-	panicked  bool
-	blocker   *slot
-	exitKnown bool // exit log is fully determined (no panic anywhere)
+	entryLog   []string
+	exitLog    []string
+	panicked   bool
+	blocker    *slot
+	exitKnown  bool // exit log is fully determined (no panic anywhere)
+	earlyPanic bool // the chain panicked in a prepare or rule-check slot: no statistic slot was told of a pass, so none
+	// may be told of a completion (a completion for a pass that never was drives counters negative, cf. C01)
 }
 
 func TestChain(t *testing.T) {
-	hx.Check(t, hx.N{Quick: 36000, Thorough: 400000}, func(t *rapid.T, c *hx.Case) {
+	hx.Check(t, hx.N{Quick: 24000, Thorough: 400000}, func(t *rapid.T, c *hx.Case) {
 		hx.Reset(hx.Epoch)
+		// the EntryContext pool is shared by all chains of the process: empty it (two collections also drop the
+		// victim cache) so that a case is a function of its own draws only and a failure shrinks and replays
+		runtime.GC()
+		runtime.GC()
 		sc := base.NewSlotChain()
 		var slots []*slot
 		slotIdx = map[string]int{}
@@ -175,7 +181,7 @@ func TestChain(t *testing.T) {
 			for _, s := range byKind(0) {
 				ex.entryLog = append(ex.entryLog, "prep:"+s.name)
 				if b(s) == bPanic {
-					ex.panicked = true
+					ex.panicked, ex.earlyPanic = true, true
 					break
 				}
 			}
@@ -183,7 +189,7 @@ func TestChain(t *testing.T) {
 				for _, s := range byKind(1) {
 					ex.entryLog = append(ex.entryLog, "check:"+s.name)
 					if b(s) == bPanic {
-						ex.panicked = true
+						ex.panicked, ex.earlyPanic = true, true
 						break
 					}
 					if b(s) == bBlockNew || b(s) == bBlockPooled {
@@ -239,6 +245,7 @@ func TestChain(t *testing.T) {
 			}
 		}()
 		nontrivial := false
+		sawBlockThenEarlyPanic, lastBlocked := false, false
 		exitOne := func(k int) {
 			h := live[k]
 			live = append(live[:k], live[k+1:]...)
@@ -260,6 +267,9 @@ func TestChain(t *testing.T) {
 			}
 			if h.ex.exitKnown && handlerPanics && len(log) != 0 && strings.Join(log, " ") != strings.Join(h.ex.exitLog, " ") {
 				t.Fatalf("exit callbacks after a panicking exit handler\n got %v\nwant nothing or %v", log, h.ex.exitLog)
+			}
+			if h.ex.earlyPanic && len(log) != 0 {
+				t.Fatalf("the chain panicked before any statistic slot was told of a pass, yet Exit reported completions %v", log)
 			}
 			for _, l := range log {
 				if !strings.HasPrefix(l, "completed:") {
@@ -318,6 +328,10 @@ func TestChain(t *testing.T) {
 			if collide && (ex.blocker != nil || ex.panicked) {
 				nontrivial = true
 			}
+			if lastBlocked && ex.earlyPanic {
+				sawBlockThenEarlyPanic = true
+			}
+			lastBlocked = !ex.panicked && ex.blocker != nil
 			if e != nil {
 				h := held{e: e, ex: ex, hlog: &[]string{}}
 				h.handlers = rapid.SampledFrom([]int{0, 0, 1, 2, 4, 5, 6}).Draw(t, "handlers")
@@ -326,7 +340,10 @@ func TestChain(t *testing.T) {
 					e.WhenExit(func(*base.SentinelEntry, *base.EntryContext) error { *hl = append(*hl, "ok"); return nil })
 				}
 				if h.handlers&4 != 0 {
-					e.WhenExit(func(*base.SentinelEntry, *base.EntryContext) error { *hl = append(*hl, "err"); return errors.New("handler error") })
+					e.WhenExit(func(*base.SentinelEntry, *base.EntryContext) error {
+						*hl = append(*hl, "err")
+						return errors.New("handler error")
+					})
 				}
 				if h.handlers&2 != 0 {
 					e.WhenExit(func(*base.SentinelEntry, *base.EntryContext) error { *hl = append(*hl, "panic"); panic("exit handler") })
@@ -362,6 +379,7 @@ func TestChain(t *testing.T) {
 		c.ClassIf(collide, "colliding-orders")
 		c.ClassIf(n > 12, "more-than-12-slots")
 		c.ClassIf(len(blocks) > 0, "has-block")
+		c.ClassIf(sawBlockThenEarlyPanic, "block-then-early-panic-on-recycled-context")
 		if nontrivial {
 			c.NonTrivial()
 		}
